@@ -26,9 +26,11 @@ def build(ctx):
     ctx.emit('AR_tryEmplaceUpdate.body.inc', r.function(F, r'bool\s+tryEmplaceUpdate\s*\(\s*Args&&\.\.\.\s*args\s*\)', within=CLS), must_fire=['R7', 'R17'],
              subs=[ST + ('opt',), CAS + ('opt',), LOAD + ('opt',), STORE, ('R17', r'(?<![\w.>])updateRequested\(\)', 'AR_updateRequested(self)', 'opt'), ('R17', r'obj_\.emplace\(std::forward<Args>\(args\)\.\.\.\);', 'TOUCH_OBJ(); OpResult_emplace(&self->obj_, args);', 1)])
     ctx.emit('AR_getUpdate.body.inc', r.function(F, r'OpResult\s+getUpdate\s*\(\s*\)', within=CLS), must_fire=['R7', 'R12', 'R10'],
-             subs=[('R9', r'RequestState\s+state\s*=', 'int state =', 'opt'), ('R7', CAS[1], CAS[2], 'opt'), ('R7', LOAD[1], LOAD[2], 'opt'), STORE,
-                   ('R12', r'auto\s+obj\s*=\s*std::move\(obj_\);', 'TOUCH_OBJ(); OpResult_ctor_move(out, &self->obj_);', 1),
-                   ('R10', r'return\s+obj\s*;', 'return;', 1),
+             subs=[('R9', r'RequestState\s+state\s*=', 'int state =', 'opt'), ('R7', CAS[1], CAS[2], 'opt'), ('R7', LOAD[1], LOAD[2], 'opt'), STORE + ('opt',),
+                   # the value is moved out of obj_ either into a local that is returned, or directly in the return statement
+                   ('R12', r'auto\s+obj\s*=\s*std::move\(obj_\);', 'TOUCH_OBJ(); OpResult_ctor_move(out, &self->obj_);', 'opt'),
+                   ('R12', r'return\s+std::move\(obj_\)\s*;', '{ TOUCH_OBJ(); OpResult_ctor_move(out, &self->obj_); return; }', 'opt'),
+                   ('R10', r'return\s+obj\s*;', 'return;', 'opt'),
                    ('R10', r'return\s*\{\s*\}\s*;', 'OpResult_ctor_default(out); return;', 1)])
     S = 'specs/c24_async.c'
     rep = ['OpResult_emplace', 'OpResult_ctor_move', 'OpResult_ctor_default']
